@@ -87,7 +87,8 @@ func LoadBatch(file string) ([]Op, error) {
 
 // Env: what the calls share — ONE loaded font family (the property's "shared loaded font").
 type Env struct {
-	TextFamily *canvas.FontFamily // a second shared loaded font used ONLY for layout (never embedded by a renderer, so the known Subset mutation cannot reach it)
+	TextFamily *canvas.FontFamily // the font the RichText layouts use: the SAME shared family the renderers embed (RunFresh swaps in a fresh copy)
+	CFF        *canvas.FontFamily // a second shared font with CFF outlines (EBGaramond), embedded by some Render calls
 	Family    *canvas.FontFamily
 	FontBytes []byte // a named font (DejaVuSerif)
 	Noname    []byte // the same font with name records 1, 4, 6 renumbered: LoadFont takes the nonameFonts path
@@ -103,7 +104,13 @@ func NewEnv(repo string) (*Env, error) {
 		return nil, err
 	}
 	e := &Env{Family: fam, FontBytes: b}
-	if e.TextFamily, err = FreshFamily(b); err != nil {
+	e.TextFamily = fam
+	cff, err := os.ReadFile(filepath.Join(repo, "resources", "EBGaramond12-Regular.otf"))
+	if err != nil {
+		return nil, err
+	}
+	e.CFF = canvas.NewFontFamily("ebgaramond")
+	if err := e.CFF.LoadFont(cff, 0, canvas.FontRegular); err != nil {
 		return nil, err
 	}
 	e.Noname = StripNames(b)
@@ -245,7 +252,11 @@ func (op Op) Run(env *Env) (res string) {
 		ctx.SetStrokeColor(canvas.Black)
 		ctx.SetStrokeWidth(op.F[0])
 		ctx.DrawPath(20, 20, path(op.A))
-		face := env.Family.Face(op.F[1], canvas.Black, canvas.FontRegular, canvas.FontNormal)
+		fam := env.Family
+		if len(op.F) > 2 && op.F[2] == 1 {
+			fam = env.CFF
+		}
+		face := fam.Face(op.F[1], canvas.Black, canvas.FontRegular, canvas.FontNormal)
 		ctx.DrawText(2, 30, canvas.NewTextLine(face, op.S, canvas.Left))
 		img := rasterizer.Draw(c, canvas.DPMM(2), canvas.DefaultColorSpace)
 		out := "png:" + sum(img.Pix)
@@ -257,7 +268,7 @@ func (op Op) Run(env *Env) (res string) {
 		s.Close()
 		out += " svg:" + sum(b1.Bytes())
 		b1.Reset()
-		s = svg.New(&b1, 40, 40, nil)
+		s = svg.New(&b1, 40, 40, &svg.Options{EmbedFonts: true, SubsetFonts: len(op.F) > 3 && op.F[3] == 1, SizeUnits: "mm"})
 		c.RenderTo(s)
 		s.Close()
 		out += fmt.Sprintf(" svgembed:%d", b1.Len())
@@ -286,7 +297,9 @@ func (op Op) Run(env *Env) (res string) {
 	case "SharedFontState":
 		// observable state of the ONE shared loaded font
 		f := env.Family.Face(10, canvas.Black, canvas.FontRegular, canvas.FontNormal).Font
-		return fmt.Sprintf("NumGlyphs=%d NumberOfHMetrics=%d IndexToLocFormat=%d", f.NumGlyphs(), f.Hhea.NumberOfHMetrics, f.Head.IndexToLocFormat)
+		g := env.CFF.Face(10, canvas.Black, canvas.FontRegular, canvas.FontNormal).Font
+		return fmt.Sprintf("NumGlyphs=%d NumberOfHMetrics=%d IndexToLocFormat=%d cff:NumGlyphs=%d NumberOfHMetrics=%d GlyphName(A)=%q", f.NumGlyphs(), f.Hhea.NumberOfHMetrics, f.Head.IndexToLocFormat,
+			g.NumGlyphs(), g.Hhea.NumberOfHMetrics, g.GlyphName(g.GlyphIndex('A')))
 	case "LoadFont":
 		f, err := canvas.LoadFont(env.FontBytes, 0, canvas.FontRegular)
 		if err != nil {
